@@ -1,6 +1,11 @@
 package security
 
-import "time"
+import (
+	"context"
+	"time"
+
+	"tunnox-core/internal/core/storage/memory"
+)
 
 const c18Base = int64(1) << 60
 
@@ -152,4 +157,32 @@ func Harness_C18_blacklist() {
 		verif_MaybeRunPending()
 	}
 	verif_Cover("C18.bl.done")
+}
+
+// The periodic sweep of expired blacklist entries races a new blacklisting of one of those
+// addresses: once AddToBlacklist has returned, the address is refused - the sweep must not
+// take the fresh entry away with the expired one.
+func Harness_C18_blacklist_sweep_race() {
+	m := &IPManager{storage: memory.New(context.Background()), blacklist: make(map[string]*IPRecord), whitelist: make(map[string]*IPRecord)}
+	now := c18Base
+	verif_ClockSet(now)
+	a, b := "10.0.0.2", "10.0.0.3"
+	verif_Assert("C18.sweep.setup", m.AddToBlacklist(a, time.Duration(5), "r", "h") == nil && m.AddToBlacklist(b, time.Duration(5), "r", "h") == nil)
+	now += 10 // both temporary entries have expired, nobody has looked at them yet
+	verif_ClockSet(now)
+	permanent := verif_Bool()
+	d := time.Duration(0)
+	if !permanent {
+		d = time.Duration(100)
+	}
+	var addErr error
+	verif_Spawn(func() { m.cleanup() })
+	verif_Spawn(func() { addErr = m.AddToBlacklist(b, d, "again", "h") })
+	verif_Quiesce()
+	verif_Assert("C18.sweep.add_ok", addErr == nil)
+	okB, _ := m.IsAllowed(b)
+	verif_Assert("C18.sweep.readded_address_refused", !okB)
+	okA, _ := m.IsAllowed(a)
+	verif_Assert("C18.sweep.expired_address_allowed", okA)
+	verif_Cover("C18.sweep.done")
 }
